@@ -85,7 +85,10 @@ func getDirection(r, g Vector, H Matrix, hessianModification HessianModification
     delta := 1e-8
     inSitu.QR.InitializeH = true
     inSitu.QR.InitializeU = true
-    h, u, _ := qrAlgorithm.Run(H, &inSitu.QR)
+    h, u, err := qrAlgorithm.Run(H, &inSitu.QR, qrAlgorithm.ComputeU{true})
+    if err != nil {
+      return err
+    }
     for i := 0; i < g.Dim(); i++ {
         r := h.At(i, i)
       // elements on the diagonal are the eigenvalues, force them
